@@ -104,7 +104,8 @@ func (k Corr) String() string { return fmt.Sprintf("%s(%d,%d,%d)", k.Kind, k.L, 
 
 func numbers(M uint64) []string {
 	return []string{"-1", fmt.Sprintf("-%d", M), fmt.Sprint(M), fmt.Sprint(M + 1), "2147483647", "2147483648", "9223372036854775808", "99999999999999999999", "x", "", "1.5", "+3", "0x10", "-",
-		fmt.Sprintf("-%d", M+2), fmt.Sprintf("-%d", 2*M+1), "-2147483648", "-9223372036854775808", fmt.Sprint(3*M - 1)}
+		fmt.Sprintf("-%d", M+2), fmt.Sprintf("-%d", 2*M+1), "-2147483648", "-9223372036854775808", fmt.Sprint(3*M - 1),
+		"3-", "--3", "1e3", "0x1F", "\u0663", "1_000", "07", " 5"}
 }
 
 func corrSites(lines []string, legacy bool, M uint64) []Corr {
@@ -136,7 +137,7 @@ func corrSites(lines []string, legacy bool, M uint64) []Corr {
 		}
 	}
 	for b := 0; b <= len(lines); b++ {
-		for v := 0; v < 16; v++ {
+		for v := 0; v < 22; v++ {
 			out = append(out, Corr{"directive", b, 0, v})
 		}
 	}
@@ -212,6 +213,18 @@ func applyCorr(lines []string, ks []Corr, legacy bool, M uint64) (string, bool) 
 			d = "; " + strings.Repeat("x", 70000) // a comment line longer than common line buffers
 		case k.V == 15:
 			d = ";redcode-94"
+		case k.V == 16:
+			d = "ORG 1 2 3 4" // five fields, the first a directive
+		case k.V == 17:
+			d = "END 1, 2, 3 4"
+		case k.V == 18:
+			d = "oRg 0"
+		case k.V == 19:
+			d = "End"
+		case k.V == 20:
+			d = "ORG 0x0"
+		case k.V == 21:
+			d = "END 0.0"
 		default:
 			d = "END 0 0"
 		}
@@ -272,6 +285,6 @@ func (c *Ctx) RunC10(tier string) {
 			}
 		}
 	}
-	rep.Bound = fmt.Sprintf("10 canonical files per dialect x M in %v: truncation at every byte; every single corruption (delete / duplicate / transpose a field, 19 replacement numbers, 5 bad mnemonics, 5 bad modes, 16 insertions (directives in every form, a 70000-character comment, a ;redcode line) at every line boundary), also without the final newline; every pair of corruptions (quick: for the first 3 files); (thorough) every single corruption truncated at every byte", sizes)
+	rep.Bound = fmt.Sprintf("10 canonical files per dialect x M in %v: truncation at every byte; every single corruption (delete / duplicate / transpose a field, 27 replacement numbers, 5 bad mnemonics, 5 bad modes, 22 insertions (directives in every form incl. five-field, mixed-case, hexadecimal and fractional ones, a 70000-character comment, a ;redcode line) at every line boundary), also without the final newline; every pair of corruptions (quick: for the first 3 files); (thorough) every single corruption truncated at every byte", sizes)
 	rep.Sample(strings.Join(canonicalFiles(true, 8000)[4], "\n") + "\n")
 }
